@@ -9,7 +9,7 @@ UNI = ["α", "β", "γ", "δ", "é", "ß", "Ω", "ж", "中", "𝒳"]
 
 def gen_names(rng, n, style=None):
     """n distinct names, returned sorted (index = position in sorted order)."""
-    style = style or rng.choice(["v", "v", "letters", "unicode", "long", "blanks", "digits", "mixed", "casetwin", "numsuffix", "hyphen"])
+    style = style or rng.choice(["v", "v", "letters", "unicode", "long", "blanks", "digits", "mixed", "casetwin", "numsuffix", "hyphen", "concat"])
     out = set()
     k = 0
     while len(out) < n:
@@ -34,6 +34,11 @@ def gen_names(rng, n, style=None):
         elif style == "hyphen":
             # names whose concatenations with "-" collide: ("a", "b-c") and ("a-b", "c") both read "a-b-c"
             nm = rng.choice(["a", "b", "c", "d", "a-b", "b-c", "c-d", "a-b-c", "b-c-d", "-", "a-", "-b", "--"])
+            if k > 40:
+                nm += str(k)
+        elif style == "concat":
+            # names that are concatenations of other names ("11" = "1" + "1", "ab" = "a" + "b")
+            nm = rng.choice(["1", "11", "111", "2", "12", "21", "112", "a", "aa", "ab", "b", "ba", "aab"])
             if k > 40:
                 nm += str(k)
         elif style == "numsuffix":
